@@ -1,7 +1,225 @@
-/* lvh_dump.h -- canonical dump of compiled tables (DUMP op). */
+/* lvh_dump.h -- canonical, offset-free dump of a compiled table (DUMP op) and of a
+ * display table (DISPDUMP op), and the raw object list for the C12 checker (RAWDUMP).
+ *
+ * DUMP <list>  prints one line:
+ *   T <numPasses> <corrections> <finalized> <usesSequences> <usesNumericMode> <capsNoCont> <syllables>
+ *     <undefined> <letterSign> <numberSign> <noContractSign> <noNumberSign> <begComp> <endComp> <hyph 0|1>
+ *     <ruleCounter>
+ *   | E <class> <slot> <rule>            emphRules[class][slot] (only non-zero)
+ *   | R <index> <opcode> <chars> <dots> <after> <before> <nocross> <hasPatterns>
+ *   | C <value> <attrs> <mode> <def> <comp> <base> <chain of rule indices via charsnext>   (in bucket order)
+ *   | D <value> <attrs> <def> <chain of rule indices via dotsnext>
+ *   | F <hash> <chain>    forRules bucket        | B <hash> <chain>   backRules bucket
+ *   | FP <pass> <chain>   forPassRules[pass]     | BP <pass> <chain>  backPassRules[pass]
+ * Rules are identified by their `index` (sequence number within the table); -1 = null offset.
+ * Every rule reachable from any chain / slot is listed once under R, sorted by index. */
+
+#define DUMP_MAXRULES 200000
+
+static const TranslationTableRule **dumpRules;
+static int dumpNRules;
+
+static int
+ruleIdx(const TranslationTableHeader *t, TranslationTableOffset off) {
+	const TranslationTableRule *r;
+	int i;
+	if (!off) return -1;
+	r = (const TranslationTableRule *)&t->ruleArea[off];
+	for (i = 0; i < dumpNRules; i++)
+		if (dumpRules[i] == r) return r->index;
+	if (dumpNRules < DUMP_MAXRULES) dumpRules[dumpNRules++] = r;
+	return r->index;
+}
+
+static void
+printChain(const TranslationTableHeader *t, TranslationTableOffset off, int viaDots) {
+	int first = 1, guard = 0;
+	if (!off) {
+		printf(".");
+		return;
+	}
+	while (off && guard++ < 100000) {
+		const TranslationTableRule *r = (const TranslationTableRule *)&t->ruleArea[off];
+		printf(first ? "%d" : ",%d", ruleIdx(t, off));
+		first = 0;
+		off = viaDots ? r->dotsnext : r->charsnext;
+	}
+	if (off) printf(",LOOP");
+}
+
+static int
+cmpRuleIdx(const void *a, const void *b) {
+	const TranslationTableRule *x = *(const TranslationTableRule *const *)a;
+	const TranslationTableRule *y = *(const TranslationTableRule *const *)b;
+	return (x->index > y->index) - (x->index < y->index);
+}
+
+static void
+dumpTable(const TranslationTableHeader *t) {
+	int i, k;
+	/* two phases: first print everything that references rules into a memory stream so
+	 * that the rule set is known, then print T, R records, then the buffered part */
+	char *buf = NULL;
+	size_t blen = 0;
+	FILE *mem = open_memstream(&buf, &blen);
+	FILE *saved = stdout;
+	dumpRules = malloc(sizeof(*dumpRules) * DUMP_MAXRULES);
+	dumpNRules = 0;
+	stdout = mem;
+	for (i = 0; i < MAX_EMPH_CLASSES + MAX_MODES; i++)
+		for (k = 0; k < 9; k++)
+			if (t->emphRules[i][k]) {
+				if (k == lenPhraseOffset) /* holds a number, not an offset */
+					printf(" | E %d %d n%u", i, k, t->emphRules[i][k]);
+				else
+					printf(" | E %d %d %d", i, k, ruleIdx(t, t->emphRules[i][k]));
+			}
+	for (i = 0; i < HASHNUM; i++) {
+		TranslationTableOffset off = t->characters[i];
+		while (off) {
+			const TranslationTableCharacter *c =
+					(const TranslationTableCharacter *)&t->ruleArea[off];
+			printf(" | C %04x %llx %llx %d %d ", c->value, (unsigned long long)c->attributes,
+					(unsigned long long)c->mode, ruleIdx(t, c->definitionRule),
+					ruleIdx(t, c->compRule));
+			if (c->basechar)
+				printf("%04x ",
+						((const TranslationTableCharacter *)&t->ruleArea[c->basechar])->value);
+			else
+				printf("- ");
+			printChain(t, c->otherRules, 0);
+			off = c->next;
+		}
+	}
+	for (i = 0; i < HASHNUM; i++) {
+		TranslationTableOffset off = t->dots[i];
+		while (off) {
+			const TranslationTableCharacter *c =
+					(const TranslationTableCharacter *)&t->ruleArea[off];
+			printf(" | D %04x %llx %d ", c->value, (unsigned long long)c->attributes,
+					ruleIdx(t, c->definitionRule));
+			printChain(t, c->otherRules, 1);
+			off = c->next;
+		}
+	}
+	for (i = 0; i < HASHNUM; i++)
+		if (t->forRules[i]) {
+			printf(" | F %d ", i);
+			printChain(t, t->forRules[i], 0);
+		}
+	for (i = 0; i < HASHNUM; i++)
+		if (t->backRules[i]) {
+			printf(" | B %d ", i);
+			printChain(t, t->backRules[i], 1);
+		}
+	for (i = 0; i <= MAXPASS; i++)
+		if (t->forPassRules[i]) {
+			printf(" | FP %d ", i);
+			printChain(t, t->forPassRules[i], 0);
+		}
+	for (i = 0; i <= MAXPASS; i++)
+		if (t->backPassRules[i]) {
+			printf(" | BP %d ", i);
+			printChain(t, t->backPassRules[i], 1);
+		}
+	{
+		int u = ruleIdx(t, t->undefined), ls = ruleIdx(t, t->letterSign),
+			ns = ruleIdx(t, t->numberSign), nc = ruleIdx(t, t->noContractSign),
+			nn = ruleIdx(t, t->noNumberSign), bc = ruleIdx(t, t->begComp),
+			ec = ruleIdx(t, t->endComp);
+		fflush(mem);
+		stdout = saved;
+		printf("T %d %d %d %d %d %d %d %d %d %d %d %d %d %d %d %d", t->numPasses,
+				t->corrections ? 1 : 0, t->finalized, t->usesSequences, t->usesNumericMode,
+				t->capsNoCont, t->syllables, u, ls, ns, nc, nn, bc, ec,
+				t->hyphenStatesArray ? 1 : 0, t->ruleCounter);
+	}
+	fclose(mem);
+	qsort(dumpRules, dumpNRules, sizeof(*dumpRules), cmpRuleIdx);
+	for (i = 0; i < dumpNRules; i++) {
+		const TranslationTableRule *r = dumpRules[i];
+		printf(" | R %d %d ", r->index, (int)r->opcode);
+		printWide(r->charsdots, r->charslen);
+		printf(" ");
+		printWide(r->charsdots + r->charslen, r->dotslen);
+		printf(" %llx %llx %d %d", (unsigned long long)r->after, (unsigned long long)r->before,
+				(int)r->nocross, r->patterns ? 1 : 0);
+	}
+	fputs(buf, stdout);
+	free(buf);
+	free(dumpRules);
+	dumpRules = NULL;
+}
+
+static void
+dumpDisplay(const DisplayTableHeader *d) {
+	int i, first = 1;
+	printf("DD c2d=");
+	for (i = 0; i < HASHNUM; i++) {
+		TranslationTableOffset off = d->charToDots[i];
+		while (off) {
+			const CharDotsMapping *m = (const CharDotsMapping *)&d->ruleArea[off];
+			printf(first ? "%04x:%04x" : ",%04x:%04x", m->lookFor, m->found);
+			first = 0;
+			off = m->next;
+		}
+	}
+	if (first) printf(".");
+	first = 1;
+	printf(" d2c=");
+	for (i = 0; i < HASHNUM; i++) {
+		TranslationTableOffset off = d->dotsToChar[i];
+		while (off) {
+			const CharDotsMapping *m = (const CharDotsMapping *)&d->ruleArea[off];
+			printf(first ? "%04x:%04x" : ",%04x:%04x", m->lookFor, m->found);
+			first = 0;
+			off = m->next;
+		}
+	}
+	if (first) printf(".");
+}
+
 static int
 doDumpOp(char **tok, int ntok) {
-	(void)tok;
-	(void)ntok;
+	if (!strcmp(tok[0], "DUMP") && ntok >= 2) {
+		const TranslationTableHeader *t;
+		resetLogCounts();
+		/* nofinal: dump without finalising (for run-time additions) */
+		if (ntok >= 3 && !strcmp(tok[2], "nofinal")) {
+			TranslationTableHeader *tt = NULL;
+			extern void getTable(const char *, const char *, TranslationTableHeader **,
+					DisplayTableHeader **);
+			getTable(tok[1], NULL, &tt, NULL);
+			t = tt;
+		} else
+			t = _lou_getTranslationTable(tok[1]);
+		if (!t)
+			printf("T null");
+		else
+			dumpTable(t);
+		printLogSuffix();
+		printf("\n");
+		return 1;
+	}
+	if (!strcmp(tok[0], "DISPDUMP") && ntok >= 2) {
+		const DisplayTableHeader *d;
+		resetLogCounts();
+		d = _lou_getDisplayTable(tok[1]);
+		if (!d)
+			printf("DD null");
+		else
+			dumpDisplay(d);
+		printLogSuffix();
+		printf("\n");
+		return 1;
+	}
+	if (!strcmp(tok[0], "TINFO") && ntok >= 2) {
+		const TranslationTableHeader *t = _lou_getTranslationTable(tok[1]);
+		if (!t)
+			printf("TI null\n");
+		else
+			printf("TI %d %d\n", t->corrections ? 1 : 0, t->numPasses);
+		return 1;
+	}
 	return 0;
 }
